@@ -133,3 +133,7 @@ package sql
 //@ func Neq [C13]
 //@   modifies nothing
 //@   ensures fresh(result) && result.fn == "!=" && len(result.clauses) == 2 && result.clauses[0] == left && result.clauses[1] == right
+
+//@ func NewFloatVal [C13]
+//@   modifies nothing
+//@   ensures typeis(result, "*FloatVal") && unbox(result, "*FloatVal").val == f
